@@ -1748,6 +1748,8 @@ def thread_scenarios():
         "open": (True, [f"open t:{lab} 6", "sinfo @{A0}"]),
         "copy": (True, [f"copy {{S0}} {{X}} 3={hx('newA')} 1=01", "getattr {S0} @{A0} 3:64 11:64"]),
         "read-private": (True, ["getattr {S0} {Z} 3:64 11:64"]),          # decrypts with the token's one shared cipher object
+        # C06 under threads: the value of a PRIVATE key being stored while another thread logs the token out must not reach the disk in the clear
+        "unwrap-private": (True, [f"unwrap {{S0}} 2109 {{W}} blob:{{WB}} 0={U(4)} 100={U(0x1f)} 1=01 2=01 162=01 103=00"]),      # no byte string in the template: the key value is the only thing C_UnwrapKey has to encrypt
         "login-so": (True, ["logout {S0}", f"login {{S0}} 0 {so}", "sinfo {S0}", "logout {S0}"]),         # check-then-act inside Token::loginSO / C_Login; ends logged out (the closing inventory logs in as the user)
     }
     B = {   # name -> (uses S1 from the prologue?, [calls of thread 1 …])
@@ -1769,6 +1771,7 @@ def thread_scenarios():
         for bn, (usesS1, bcalls) in B.items():
             if usesS1 and not needS1: continue
             if bn in ("login-user", "login-so") and an not in ("login", "login-so", "logout", "open", "close"): continue
+            if an == "unwrap-private" and bn not in ("logout", "close", "find-read"): continue
             lines = []
             def op(tag, text):
                 lines.append(f"{tag} {text}"); return len(lines)
@@ -1778,11 +1781,18 @@ def thread_scenarios():
             X = "@%d" % op("M", f"create {S0} 0={U(0)} 1=01 2=00 3={hx('objX')} 11=1111 10=00")
             op("M", f"create {S0} 0={U(0)} 1=00 2=00 3={hx('objY')} 11=2222")
             Z = "@%d" % op("M", f"create {S0} 0={U(0)} 1=01 2=01 3={hx('objZ')} 11=3333")
+            W = WB = ""
+            if an == "unwrap-private":
+                # a blob made by the library itself from a SESSION key (nothing of it is on disk), whose value is announced to the judge (`nop secret`)
+                W = "@%d" % op("M", f"create {S0} 0={U(4)} 100={U(0x1f)} 1=00 2=00 3={hx('kek')} 11={'a7' * 32} 106=01 107=01")
+                T = "@%d" % op("M", f"create {S0} 0={U(4)} 100={U(0x1f)} 1=00 2=00 3={hx('tmp')} 11=c0ffee11d00dfeed0123456789abcdef8badf00ddeadbeef5a5aa5a5c3c33c3c 162=01 103=00")
+                WB = "@%d" % op("M", f"wrap {S0} 2109 {W} {T} 600")
+                op("M", f"destroy {S0} {T}"); op("M", "nop secret c0ffee11d00dfeed0123456789abcdef8badf00ddeadbeef5a5aa5a5c3c33c3c")
             S1 = None
             if needS1 and usesS1: S1 = "@%d" % op("M", f"open t:{lab} 6")
             elif needS1: op("M", f"open t:{lab} 4")          # another session exists, so that A's session is not the last one
             a0 = len(lines) + (2 if an in ("login", "login-so") else 1)
-            for c in acalls: op("T0", c.replace("{S0}", S0).replace("{X}", X).replace("{Z}", Z).replace("{A0}", str(a0)))
+            for c in acalls: op("T0", c.replace("{S0}", S0).replace("{X}", X).replace("{Z}", Z).replace("{A0}", str(a0)).replace("{WB}", WB).replace("{W}", W))
             b0 = len(lines) + 1
             for c in bcalls: op("T1", c.replace("{S1}", S1 or "").replace("{X}", X).replace("{Z}", Z).replace("{B0}", str(b0)).replace("{B1}", str(b0 + 1)))
             k = op("M", f"open t:{lab} 4"); op("M", f"login @{k} 1 {user}")
